@@ -13,11 +13,11 @@ Proof. exact @quotient_nodes. Qed.
 Print Assumptions C09_quotient_modules.
 
 (* a imports b exactly when some module truncating to a imports some module truncating to b and a differs from b
-   (an import that coincides with a hierarchy edge is that hierarchy edge) *)
+   (an import that coincides with a hierarchy edge is that hierarchy edge).  Unconditional: an import one end of which
+   is no node of the full architecture (an excluded file, a name that is no module) is no edge of the limited one either. *)
 Theorem C09_quotient_imports :
   forall (comp : Type) (ceqb : comp -> comp -> bool), (forall x y, reflect (x = y) (ceqb x y)) ->
   forall k mods imports a b,
-  (forall x y, In (x, y) imports -> In x (build_nodes ceqb None mods imports) /\ In y (build_nodes ceqb None mods imports)) ->
   (In (a, b) (imps (build_graph ceqb mods imports (Some k))) <->
    exists x y, In (x, y) (imps (build_graph ceqb mods imports None)) /\
                a = flatten (Some k) x /\ b = flatten (Some k) y /\ a <> b /\ childb ceqb a b = false).
@@ -40,7 +40,6 @@ Print Assumptions C09_effective_limit.
 Theorem C09_verdict_preserved :
   forall (comp : Type) (ceqb : comp -> comp -> bool), (forall x y, reflect (x = y) (ceqb x y)) ->
   forall (rmatch : N -> list comp -> bool) k mods imports,
-  (forall x y, In (x, y) imports -> In x (build_nodes ceqb None mods imports) /\ In y (build_nodes ceqb None mods imports)) ->
   (forall x y, In (x, y) imports -> prefixb ceqb x y = false) ->
   forall v imp exc Ss Os,
   strict ceqb (build_graph ceqb mods imports None) Ss Os ->
@@ -55,7 +54,6 @@ Print Assumptions C09_verdict_preserved.
 Theorem C09_semantics_preserved :
   forall (comp : Type) (ceqb : comp -> comp -> bool), (forall x y, reflect (x = y) (ceqb x y)) ->
   forall k mods imports,
-  (forall x y, In (x, y) imports -> In x (build_nodes ceqb None mods imports) /\ In y (build_nodes ceqb None mods imports)) ->
   (forall x y, In (x, y) imports -> prefixb ceqb x y = false) ->
   forall v imp exc Ss Os,
   pw_unrel ceqb (map fid (Ss ++ Os)) ->
@@ -101,15 +99,13 @@ Definition ex9_imps : list (list N * list N) := [([1;2;5;6], [1;3;7]); ([1;3;7],
 Definition ex9_Ss : list (@filt N) := [Named [1;2]; SubOf [1;4]].
 Definition ex9_Os : list (@filt N) := [Named [1;3]].
 Example C09_example :
-  (forall x y, In (x, y) ex9_imps -> In x (build_nodes N.eqb None ex9_mods ex9_imps) /\ In y (build_nodes N.eqb None ex9_mods ex9_imps)) /\
   (forall x y, In (x, y) ex9_imps -> prefixb N.eqb x y = false) /\
   strict N.eqb (build_graph N.eqb ex9_mods ex9_imps None) ex9_Ss ex9_Os /\
   (forall f, In f (ex9_Ss ++ ex9_Os) -> above 2 f) /\
   verdict N.eqb (fun _ _ => false) (build_graph N.eqb ex9_mods ex9_imps (Some 2%nat)) (mk_cfg Should true false [Named [1;2]] ex9_Os) = Pass /\
   verdict N.eqb (fun _ _ => false) (build_graph N.eqb ex9_mods ex9_imps (Some 2%nat)) (mk_cfg ShouldNot false true ex9_Ss ex9_Os) <> Pass.
 Proof.
-  split; [|split; [|split; [|split; [|split]]]].
-  - intros x y H. simpl in H. repeat (destruct H as [H|H]; [injection H as <- <-; vm_compute; intuition congruence|]). destruct H.
+  split; [|split; [|split; [|split]]].
   - intros x y H. simpl in H. repeat (destruct H as [H|H]; [injection H as <- <-; reflexivity|]). destruct H.
   - constructor.
     + intros a b H. vm_compute in H. repeat (destruct H as [H|H]; [injection H as <- <-; vm_compute; intuition congruence|]). destruct H.
@@ -121,3 +117,10 @@ Proof.
   - vm_compute. reflexivity.
   - vm_compute. discriminate.
 Qed.
+
+(* D22 (repaired): an import of something that is no node of the full architecture - here [1;2;9], e.g. an excluded file -
+   is no edge of the level-limited architecture either (before the repair it became the edge [1;3] -> [1;2]) *)
+Example C09_non_module_import :
+  imps (build_graph N.eqb [[1]; [1;2]; [1;3]; [1;3;4]]%N [([1;3;4], [1;2;9])]%N (Some 1%nat)) = [] /\
+  imps (build_graph N.eqb [[1]; [1;2]; [1;3]; [1;3;4]]%N [([1;3;4], [1;2;9])]%N None) = [].
+Proof. split; vm_compute; reflexivity. Qed.
